@@ -1,8 +1,10 @@
 package rules
 
 import (
+	"os"
 	"fmt"
 	"go/constant"
+	"go/token"
 	"go/types"
 	"sort"
 	"strings"
@@ -491,4 +493,107 @@ func returnsFreshAlloc(f *ssa.Function) bool {
 		}
 	}
 	return n > 0
+}
+
+// c20blockComment (R13, round 5): a block comment ends at the first "*/", not at a '*' … '/' with other runes in between.
+// scanDocument is a small state machine over the current rune; on every path (loop unrolled up to 6 runes) that returns
+// a DOCUMENT token, the rune examined in the iteration before the closing '/' was '*'. A machine that stays in its
+// "saw '*'" state across other runes ends `/* a * b / c */` at the first later '/', and the rest of the comment is
+// scanned as source (a valid file is rejected, or worse, accepted with different tokens).
+func c20blockComment(c *Ctx) {
+	rule := "C20.R13"
+	f := c.fn(rule, goctlScan, "(*Scanner).scanDocument")
+	if f == nil {
+		return
+	}
+	ps := c.paths(rule, f, px.Config{MaxVisits: 6, MaxPaths: 400000, MaxSteps: 400000, Inline: inlineNamed("readRune")})
+	// the current rune: the scanner's ch field, or — once readRune is analysed in place — whatever rune it stored there
+	isCh := func(s *px.Sym) bool {
+		if px.IsFieldLoad(s, "ch", nil) {
+			return true
+		}
+		s = s.Strip(false)
+		if s == nil || s.Typ == nil {
+			return false
+		}
+		b, ok := s.Typ.Underlying().(*types.Basic)
+		return ok && b.Kind() == types.Int32
+	}
+	closed := 0
+	if os.Getenv("GZV_DEBUG_R13") != "" {
+		ex := map[string]int{}
+		for _, p := range ps {
+			ex[p.Exit.String()]++
+		}
+		fmt.Println("R13 paths", len(ps), ex)
+		for i, p := range ps {
+			if i < 3 || p.Exit == px.ExitReturn {
+				for _, l := range p.Trace(c.P.Pos, 40) {
+					fmt.Println("   ", l)
+				}
+				fmt.Println("---")
+			}
+		}
+	}
+	held := c.forall(rule, goctlScan+".(*Scanner).scanDocument", "a DOCUMENT token is returned only when the rune before the closing '/' was '*' (the \"saw '*'\" state does not survive other runes)", f, ps, func(p *px.Path) (bool, string) {
+		if p.Exit != px.ExitReturn || len(p.Results) != 2 || !(px.IsNilConst(p.Results[1]) || p.Abs(p.Results[1]).K == px.Nil) {
+			return true, ""
+		}
+		// split the path into iterations at the readRune calls; classify the rune of each iteration by the comparisons made on s.ch
+		type iter struct{ star, slash, other bool }
+		var its []iter
+		cur := iter{}
+		seen := false
+		flush := func() {
+			if seen {
+				if !cur.star && !cur.slash {
+					cur.other = true
+				}
+				its = append(its, cur)
+			}
+			cur, seen = iter{}, false
+		}
+		for i := range p.Events {
+			e := &p.Events[i]
+			switch {
+			case e.Kind == px.EvBranch:
+				cnd := e.Cond.Strip(true)
+				if cnd.Kind == px.KBinOp && cnd.Op == token.EQL && isCh(cnd.X) {
+					if k, ok := constInt(p, cnd.Y); ok {
+						seen = true
+						if e.Taken && k == '*' {
+							cur.star = true
+						}
+						if e.Taken && k == '/' {
+							cur.slash = true
+						}
+						if e.Taken && k != '*' && k != '/' {
+							cur.other = true
+						}
+					}
+				}
+			case e.Kind == px.EvCall && e.Call.Static != nil && e.Call.Static.Name() == "readRune":
+				flush()
+			}
+		}
+		flush()
+		// the closing iteration is the last one that saw '/'
+		last := -1
+		for i, it := range its {
+			if it.slash {
+				last = i
+			}
+		}
+		if last < 1 {
+			return true, ""
+		}
+		closed++
+		if !its[last-1].star {
+			return false, "the comment is closed by a '/' although the rune before it was not '*' (e.g. `/* a * b / c */` ends at `b /`): the \"saw '*'\" state is kept across other runes"
+		}
+		return true, ""
+	})
+	if held && closed == 0 {
+		c.R.Undecided(rule, goctlScan+".(*Scanner).scanDocument#closing", "paths that close a block comment are recognised", "no path returns a DOCUMENT token after two or more runes")
+	}
 }
